@@ -13,6 +13,13 @@ CLAIMS = {
    "Tie: trace acceptance - histories run on the real evaluator (serial with a conductor forcing completion order incl. several completions per wake-up and queued jobs; "
    "thread/process/loky) are replayed by the extracted Coq oracle `replay`; an accepted history is provably a run of the model (C01_accepted_history_is_run).",
    note="asyncio wait/cancel semantics and executor backends are observed, not modelled (a finished task is never lost; cancel of a finished task is a no-op). Run-functions that raise are outside the property."),
+ "C17": dict(cat="proof", text="Coq theorems for EVERY schedule of the mechanism model of the (repaired) queued evaluator, any queue / pop count / jobs / workers: "
+   "conservation (queue + resources in jobs' hands is always a permutation of the initial queue), disjointness of concurrently held resources, exactly pop resources per job, "
+   "no deadlock and liveness (some schedule finishes every job) when pop <= |queue|; the pinned shared-slot design is refuted by witnesses (shared resource, underflow = F17). "
+   "Tie: the run-function's own Start/End log of real queued evaluators (serial with conductor-forced completion orders, thread with random sleeps) is accepted by the extracted Coq oracle "
+   "(replay_obs/final_ok: resources free when handed out, exact count, metadata truthful, everything returned; proved to imply conservation and disjointness) and, on the serial backend, "
+   "matches the mechanism model's exact FIFO prediction.",
+   note="asyncio scheduling and thread pools are observed, not modelled; the worker bound itself is not part of the property (each submit installs a fresh worker semaphore, F21)."),
  "C11": dict(cat="proof", text="Coq theorems (all point sets, all visiting orders, no bound): the sweep model selects exactly one copy of every minimal vector "
    "(sound, complete, unique), the result does not depend on the visiting order, the peeled fronts partition the input, ranked(req) has min(n,req) points taken front by front. "
    "Tied to the code by functional correspondence (value sets) and by the extracted Coq oracles ok_nds/ok_ranked (reflection lemmas proved) applied to the implementation's "
